@@ -445,12 +445,17 @@ func c17ProverStateChanged(a, b c17Obs) bool {
 	return false
 }
 
+var c01MerkleCases int
+
 func c17Run(r *RunCtx, prop string) error {
 	r.Sum.Rule = "histories on the assembled app: files of 1..40 chunks (utils.BuildTree), 1..4 providers + strangers, random interleavings of PostFile / DeleteFile / PostProof (honest and ten kinds of mutated payloads) / attestation and report forms / provider shutdown / reward blocks; one evaluation = one executed step (pre, op, post); non-trivial = distinct (op kind, payload kind, outcome, whether the file or proof stores changed, prover-list length)"
 	if prop == "C17" {
 		r.Group("hist", "From JK Require Import Model.StorageFiles Corr.C17.", "c17_case", "c17_ok")
 	} else {
 		r.Group("hist", "From JK Require Import Model.StorageFiles Corr.C17 Corr.C01.", "c17_case", "c01_ok")
+		// the verdict the C01 model takes as an input is itself tied to the Gallina Merkle model
+		// (Model/Merkle.v: SHA-256 leaf pre-image, SHA3-512 tree walk) on the very payloads submitted
+		r.Group("merkle", "From JK Require Import Model.Merkle Corr.C02.", "c02_case", "c02_ok")
 	}
 	nh := r.Scale(10, 120)
 	for k := 0; k < nh; k++ {
@@ -902,6 +907,12 @@ func (h *c17Hist) opProof() error {
 	verified, full, valid := false, false, false
 	if targetFound {
 		verified = target.VerifyProof(msg.HashList, msg.ToProve, msg.Item) // the verdict the model takes as input
+		if h.prop == "C01" && c01MerkleCases < h.r.Scale(70, 900) && len(msg.Item) <= 2048 {
+			c01MerkleCases++
+			h.r.Case("merkle", fmt.Sprintf("FileVerify %s %s %s %s %s", cBytes(target.Merkle), cZ(msg.ToProve), cBytes(msg.Item), c02Decoded(msg.HashList), cBool(verified)),
+				map[string]interface{}{"op": "VerifyProof verdict of a submitted PostProof payload", "payload": kind, "verified": verified, "chunk": msg.ToProve})
+			h.r.Hist("merkle_verdicts", fmt.Sprintf("%s:%v", kind, verified))
+		}
 		full = !target.ContainsProver(creator) && int64(len(target.Proofs)) >= target.MaxProofs
 		tChallenge := int64(0)
 		if target.ContainsProver(creator) {
